@@ -114,6 +114,37 @@ def rule_a(ctx: Ctx) -> None:
             else:
                 ctx.fail(m, node, where, st,
                          f"`{b}` is the caller's tree in a function with a copy flag, but here it is {why}: with copy=True the argument would still be changed")
+        # a parameter parsed / adopted without the copy flag and then returned as is: with copy=True the caller gets its own node back
+        for st in walk_no_nested(fn):
+            if not (isinstance(st, ast.Assign) and len(st.targets) == 1 and isinstance(st.targets[0], ast.Name) and isinstance(st.value, ast.Call)):
+                continue
+            cn_ = (call_name(st.value) or "").split(".")[-1]
+            if cn_ not in ("maybe_parse", "maybe_copy") or not st.value.args:
+                continue
+            a0 = st.value.args[0]
+            kw_ = kwarg(st.value, "copy")
+            threaded_ = (kw_ is not None and norm(kw_) == "copy") or (cn_ == "maybe_copy" and len(st.value.args) >= 2 and norm(st.value.args[1]) == "copy")
+            if not (isinstance(a0, ast.Name) and a0.id in params and a0.id != "self") or threaded_:
+                continue
+            # `if isinstance(p, <node class>): return ...` earlier in the body: below it p is not a tree any more
+            narrowed = any(
+                isinstance(g_, ast.If) and g_.lineno < st.lineno and isinstance(g_.test, ast.Call) and call_name(g_.test) == "isinstance" and g_.test.args
+                and norm(g_.test.args[0]) == a0.id and g_.body and isinstance(g_.body[-1], (ast.Return, ast.Raise))
+                for g_ in fn.body
+            )
+            if narrowed:
+                continue
+            v_ = st.targets[0].id
+            rebinds = [x for x in walk_no_nested(fn) if isinstance(x, ast.Assign) and any(isinstance(t_, ast.Name) and t_.id == v_ for t_ in x.targets) and x is not st]
+            rets = [r for r in walk_no_nested(fn) if isinstance(r, ast.Return) and isinstance(r.value, ast.Name) and r.value.id == v_ and r.lineno > st.lineno
+                    and not any(st.lineno < rb.lineno < r.lineno for rb in rebinds)]
+            n_uses += 1
+            if rets:
+                ctx.fail(m, rets[0], where, f"{norm(st, 60)} ... return {v_}",
+                         f"`{a0.id}` is adopted by {cn_}(...) without copy=copy and `{v_}` is returned as is: with copy=True the caller receives its own node (still attached to its "
+                         f"parent), so editing the result edits the argument")
+            else:
+                ctx.ok(f"{where}|{norm(st, 60)}|not returned as is", None)
         # sub-trees read out of the caller's tree before it is copy-guarded must not be embedded elsewhere
         for b in sorted(borrowed):
             for sink, via, how in _derived_escapes(m, fn, b, params):
@@ -376,6 +407,16 @@ def rule_b(ctx: Ctx) -> None:
         ctx.ok(f"{rp.key}|transform with the copying default")
     else:
         ctx.fail(rp.module, rp.node, rp.key, "return expression.transform(...)", "replace_placeholders must use transform's copying default")
+    # ... and the replacement values it inserts are copies (convert() returns an expression argument as is unless copy=True)
+    convs = [c for c in ast.walk(rp.node) if isinstance(c, ast.Call) and (call_name(c) or "").split(".")[-1] == "convert"]
+    ctx.require(bool(convs), "anchor vanished: replace_placeholders no longer builds its replacements with convert()")
+    for c in convs:
+        kw_ = kwarg(c, "copy")
+        if isinstance(kw_, ast.Constant) and kw_.value is True:
+            ctx.ok(f"{rp.key}|{norm(c)}")
+        else:
+            ctx.fail(rp.module, c, rp.key, c, "the replacement value is inserted as is: a node passed by the caller is adopted by the new tree (its parent changes) and, when several "
+                                              "placeholders take the same value, stored in several places")
     # lineage
     lin = [f for k, f in repo.module("sqlglot.lineage").funcs.items() if k.startswith("lineage") and len(f.node.body) > 2]
     ctx.require(bool(lin), "anchor vanished: sqlglot.lineage.lineage")
